@@ -60,6 +60,8 @@ def work(case):
         o, lists = SD.apply_op(dec, rec, op)
         out += o
         if lists is None:
+            if op[0] == "remote" and fail is None:
+                fail = SD.remote_raise_failure(dec, k)
             break
         if op[0] == "remote" and fail is None:
             # a run the peer reports as active (not finished by the same message, not remembered as finished here)
